@@ -5097,6 +5097,38 @@ class PyCdlib:
         if iso_path is None and joliet_path is None and udf_path is None:
             raise pycdlibexception.PyCdlibInvalidInput('Either iso_path or joliet_path must be passed')
 
+        # Refuse the whole edit before the first namespace is touched: every
+        # path must name an existing, empty directory other than the root.
+        if iso_path is not None:
+            iso_path_bytes = utils.normpath(iso_path)
+            if iso_path_bytes == b'/':
+                raise pycdlibexception.PyCdlibInvalidInput('Cannot remove base directory')
+            child = self._find_iso_record(iso_path_bytes)
+            if not child.is_dir():
+                raise pycdlibexception.PyCdlibInvalidInput('Cannot remove a file with rm_directory (try rm_file instead)')
+            if len(child.children) > 2:
+                raise pycdlibexception.PyCdlibInvalidInput('Directory must be empty to use rm_directory')
+
+        if joliet_path is not None:
+            joliet_child = self._find_joliet_record(self._normalize_joliet_path(joliet_path))
+            if joliet_child.is_root:
+                raise pycdlibexception.PyCdlibInvalidInput('Cannot remove base directory')
+            if not joliet_child.is_dir():
+                raise pycdlibexception.PyCdlibInvalidInput('Cannot remove a file with rm_directory (try rm_file instead)')
+            if len(joliet_child.children) > 2:
+                raise pycdlibexception.PyCdlibInvalidInput('Directory must be empty to use rm_directory')
+
+        if udf_path is not None:
+            if self.udf_root is None:
+                raise pycdlibexception.PyCdlibInvalidInput('Can only specify a UDF path for a UDF ISO')
+            if utils.normpath(udf_path) == b'/':
+                raise pycdlibexception.PyCdlibInvalidInput('Cannot remove base directory')
+            (udf_ident_unused, udf_entry) = self._find_udf_record(utils.normpath(udf_path))
+            if udf_entry is None or not udf_entry.is_dir():
+                raise pycdlibexception.PyCdlibInvalidInput('Cannot remove a file with rm_directory (try rm_file instead)')
+            if len(udf_entry.fi_descs) > 1:
+                raise pycdlibexception.PyCdlibInvalidInput('Directory must be empty to use rm_directory')
+
         num_bytes_to_remove = 0
 
         if iso_path is not None:
